@@ -201,3 +201,95 @@ Example C08_lalr_example :
   | _ => False
   end.
 Proof. vm_compute. split; [eexists; reflexivity | eexists; split; reflexivity]. Qed.
+
+(* ------------------------------------------------------------------------------------------
+   LALR half, never-EARLY direction (round 6): for CONFLICT-FREE model tables (no shift/reduce
+   and no reduce/reduce set, cf. C02_complete) an error is raised only when the token really
+   cannot follow, so with the never-late theorems above the reported position is exactly the
+   first offending token, and accepts() is exact.  Proof: the driver follows a derivation tree
+   of any sentence u ++ k :: v (LR/Lalr_complete.v); that run is cut where k is shifted and
+   fuel monotonicity identifies the configuration there with the driver's own (LR/Lalr_exact.v).
+   With conflicts the statement is false: see C08_lalr_never_early_needs_conflict_free. *)
+From LV Require Import LR.Lalr_complete LR.Lalr_exact.
+
+(* the full statement kept in round 3 is now a theorem *)
+Theorem C08_lalr_never_early : C08_lalr_never_early_full_statement.
+Proof.
+  exact (fun G prio rootnt start tEND fuel A rel LA R qe fuel' u c k HT Hfr Hne Hqe CF Hf _ Hvi =>
+           never_early_shift G prio rootnt start tEND fuel A rel LA R qe HT
+             (fun r Hr => proj1 (Hfr r Hr)) Hne Hqe CF fuel' u c k Hf Hvi).
+Qed.
+Print Assumptions C08_lalr_never_early.
+
+(* an UnexpectedToken on k after consuming u: u is a viable prefix and u ++ [k] is not -
+   the reported position is EXACTLY the first offending token *)
+Theorem C08_lalr_error_position_exact (G : grammar) (prio : list Z) (rootnt start tEND fuel : nat)
+        (A : lr0) (rel : relations) (LA : list (nat * nat * nat)) (R : rows) (qe : nat)
+        f u c f' k c' :
+  compute_lalr (G ++ [mkRule rootnt [NT start]]) prio [length G] tEND fuel = ATable A rel LA R ->
+  (forall r, In r G -> ~ In (NT rootnt) (rhs r)) -> start <> rootnt ->
+  end_state (G ++ [mkRule rootnt [NT start]]) [length G] A 0 = Some qe ->
+  productive_bodies G nat (Driver_proofs.tmatch nat (fun k => k)) -> (exists r, In r G /\ lhs r = start) ->
+  conflict_free A LA ->
+  feed_all nat (fun k => k) (ptable_of_rows R 0 qe) f (init_config (ptable_of_rows R 0 qe)) u = Shifted c ->
+  feed nat (fun k => k) (ptable_of_rows R 0 qe) f' c k false = Unexpected c' ->
+  viable G nat (Driver_proofs.tmatch nat (fun k => k)) start u /\
+  ~ viable G nat (Driver_proofs.tmatch nat (fun k => k)) start (u ++ [k]).
+Proof.
+  exact (fun H1 H2 H3 H4 H5 H6 H7 =>
+           error_position_exact G prio rootnt start tEND fuel A rel LA R qe H1 H2 H3 H4 H5 H6 H7 f u c f' k c').
+Qed.
+Print Assumptions C08_lalr_error_position_exact.
+
+(* accepts() is exact: a terminal passes the trial feed iff it can legally come next, and
+   $END passes iff the consumed input is a sentence *)
+Theorem C08_lalr_accepts_exact (G : grammar) (prio : list Z) (rootnt start tEND fuel : nat)
+        (A : lr0) (rel : relations) (LA : list (nat * nat * nat)) (R : rows) (qe : nat)
+        f u c :
+  compute_lalr (G ++ [mkRule rootnt [NT start]]) prio [length G] tEND fuel = ATable A rel LA R ->
+  (forall r, In r G -> ~ In (NT rootnt) (rhs r)) -> start <> rootnt ->
+  end_state (G ++ [mkRule rootnt [NT start]]) [length G] A 0 = Some qe ->
+  productive_bodies G nat (Driver_proofs.tmatch nat (fun k => k)) -> (exists r, In r G /\ lhs r = start) ->
+  conflict_free A LA ->
+  feed_all nat (fun k => k) (ptable_of_rows R 0 qe) f (init_config (ptable_of_rows R 0 qe)) u = Shifted c ->
+  (forall k, (exists f' c', feed nat (fun k => k) (ptable_of_rows R 0 qe) f' c k false = Shifted c') <->
+             viable G nat (Driver_proofs.tmatch nat (fun k => k)) start (u ++ [k])) /\
+  ((exists f' t, feed nat (fun k => k) (ptable_of_rows R 0 qe) f' c tEND true = Accepted t) <->
+   derives G nat (Driver_proofs.tmatch nat (fun k => k)) [NT start] u).
+Proof.
+  exact (fun H1 H2 H3 H4 H5 H6 H7 H8 =>
+           conj (fun k => accepts_exact G prio rootnt start tEND fuel A rel LA R qe H1 H2 H3 H4 H5 H6 H7 f u c k H8)
+                (accepts_end_exact G prio rootnt start tEND fuel A rel LA R qe H1 H2 H3 H4 H7 f u c H8)).
+Qed.
+Print Assumptions C08_lalr_accepts_exact.
+
+(* Conflict-freedom is necessary.  exSR:  start -> a B D ;  a -> C | C B   (B=1 C=2 D=3,
+   $END=0, $root = non-terminal 2).  After "c" the shift/reduce conflict on B is resolved as
+   shift, so after "c b" the token d raises UnexpectedToken although "c b d" is a sentence. *)
+Definition exSR : grammar := [mkRule 0 [NT 1; T 1; T 3]; mkRule 1 [T 2]; mkRule 1 [T 2; T 1]].
+Example C08_lalr_never_early_needs_conflict_free :
+  derives exSR nat (Driver_proofs.tmatch nat (fun k => k)) [NT 0] [2; 1; 3] /\
+  match compute_lalr (exSR ++ [mkRule 2 [NT 0]]) [0%Z; 0%Z; 0%Z; 0%Z] [3] 0 100 with
+  | ATable A rel LA R =>
+      match end_state (exSR ++ [mkRule 2 [NT 0]]) [3] A 0 with
+      | Some qe =>
+          let P := ptable_of_rows R 0 qe in
+          conflict_free_b A LA = false /\
+          match feed_all nat (fun k => k) P 50 (init_config P) [2; 1] with
+          | Shifted c => exists c', feed nat (fun k => k) P 50 c 3 false = Unexpected c'
+          | _ => False
+          end
+      | None => False
+      end
+  | _ => False
+  end.
+Proof.
+  split.
+  - change [2; 1; 3] with ([2; 1; 3] ++ []).
+    apply d_nt with (r := mkRule 0 [NT 1; T 1; T 3]); simpl; auto; [|constructor].
+    change [2; 1; 3] with ([2] ++ [1; 3]).
+    apply d_nt with (r := mkRule 1 [T 2]); simpl; auto.
+    + constructor; [reflexivity|constructor].
+    + constructor; [reflexivity|]. constructor; [reflexivity|constructor].
+  - vm_compute. split; [reflexivity|eexists; reflexivity].
+Qed.
